@@ -209,6 +209,8 @@ class Env(object):
         self.hbuf = {}             # pty master fd -> bytes the peer wrote, pulled out of the kernel at write time
         self.raw_slaves = set()
         self.short_reads = 0       # budget of injected short reads (environment answer)
+        self.short_writes = 0      # budget of injected short writes (environment answer)
+        self.short_writes_done = 0
         self.log = []              # trace of (virtual time, event)
         self.points = 0
         self.core_dumps = False
@@ -596,6 +598,12 @@ class OsProxy(object):
         env = ENV
         if env is not None:
             env.sched('write')
+        if env is not None and env.short_writes > 0 and len(data) > 1:
+            # environment answer: the kernel took only part of the payload (a signal handler ran in the middle)
+            if env.ch.choose(2, 'short-write'):
+                env.short_writes -= 1
+                env.short_writes_done += 1
+                data = bytes(data)[:max(1, len(data) // 2)]
         n = _os.write(fd, data)
         if env is not None:
             env.sent.setdefault(fd, bytearray()).extend(bytes(data)[:n])
@@ -947,6 +955,25 @@ class ThreadingProxy(object):
         return getattr(_threading, name)
 
 
+class ShortWriteFile(object):
+    """The unbuffered stdin pipe of the fake Popen; a write may be short when the environment says so."""
+
+    def __init__(self, env, f):
+        self._env, self._f = env, f
+
+    def write(self, data):
+        env = self._env
+        if env.short_writes > 0 and len(data) > 1 and ENV is env:
+            if env.ch.choose(2, 'short-write'):
+                env.short_writes -= 1
+                env.short_writes_done += 1
+                data = bytes(data)[:max(1, len(data) // 2)]
+        return self._f.write(data)
+
+    def __getattr__(self, name):
+        return getattr(self._f, name)
+
+
 class FakePopen(object):
     def __init__(self, env, cmd, kw):
         self.args = cmd
@@ -958,7 +985,7 @@ class FakePopen(object):
         env.fds.discard(r_out)
         env.fds.discard(w_in)
         self.stdout = _io.open(r_out, 'rb', buffering=0)
-        self.stdin = _io.open(w_in, 'wb', buffering=0)
+        self.stdin = ShortWriteFile(env, _io.open(w_in, 'wb', buffering=0))
         self.proc = env.procs.new()
         self.pid = self.proc.pid
         self.returncode = None
